@@ -209,7 +209,7 @@ CHECKS = {
     "C11": dict(
         level="model_checking",
         clauses={"meta", "trace-names", "trace-group", "trace-export-columns", "trace-unknown-input", "trace-sql-limit",
-                 "trace-sql-filtered", "trace-sql-grouped", "names"},
+                 "trace-sql-filtered", "trace-sql-grouped", "trace-dtype", "trace-export-dtype", "names"},
         phases=dict(quick=[dict(kind="verbnames"), dict(kind="joinnames"), dict(profile="core2"), dict(profile="join2"), dict(profile="union2"), dict(profile="hidsub4"),
                            dict(kind="tracemeta", profiles=[("core2", 400), ("join2", 300), ("agg3", 300)])],
                     thorough=[dict(profile="hidsub4"), dict(kind="verbnames", cols=["a", "b", "c", "x"], keys=["a", "b", "c", "x", "z"], vals=["a", "b", "c", "x", "y"]),
